@@ -42,5 +42,21 @@ def run(case):
     return res
 
 
-PROFILES = {"solve": Profile("solve", lambda: sc.scenarios(PROF), run, quick=20000, thorough=300000, timeout=120)}
+ENUM_PROF = sc.make_prof(maxfuns=[12, 20, 30, 45], diag=0.1, avg_prob=0.5, print_progress=0.0, route_bias=0.0, rhoend_exps=[1, 1, 2, 3])
+
+
+def run_enum(case):
+    """Budget enumeration: the scenario re-run with maxfun = 1..nf; every C02 clause at every place the budget can end."""
+    res = CaseResult()
+    nf, ref = sc.budget_enumeration(case, cl.c02, res)
+    res.classes += case["tags"]
+    restarts = max(len(ref.main_calls) - 1, 0) + len(ref.soft_restarts)
+    if restarts:
+        res.classes.append("restarted")
+    res.nontrivial = bool(nf > case["npt"] + 2)
+    return res
+
+
+PROFILES = {"solve": Profile("solve", lambda: sc.scenarios(PROF), run, quick=20000, thorough=300000, timeout=120),
+            "budget-enum": Profile("budget-enum", lambda: sc.scenarios(ENUM_PROF), run_enum, quick=160, thorough=5000, timeout=600)}
 KNOWN = {}
